@@ -70,7 +70,179 @@ def _note(msg):
         STATE['store_violations'].append(msg)
 
 
+class EqHashMonitor:
+    """C05 riding along the repository's tests: whenever `a == b` is
+    evaluated for two CIM objects of the same class, the laws that need no
+    model are checked on that very pair - equal objects hash equally, == is
+    symmetric, != is the negation of ==.  sys.monitoring PY_RETURN events
+    restricted to the __eq__ code objects; the operands are read from the
+    returning frame."""
+
+    TOOL = 5
+    CLASSES = ['CIMInstanceName', 'CIMClassName', 'CIMInstance', 'CIMClass',
+               'CIMProperty', 'CIMMethod', 'CIMParameter', 'CIMQualifier',
+               'CIMQualifierDeclaration', 'CIMDateTime']
+
+    def __init__(self):
+        self.codes = {}
+        self.pairs = 0
+        self.equal_pairs = 0
+        self.skipped = 0
+        self.busy = False
+        self.bad = []
+        self.per_class = {}
+
+    def start(self):
+        import pywbem
+        mon = sys.monitoring
+        try:
+            mon.use_tool_id(self.TOOL, 'vf-eqhash')
+        except ValueError:
+            pass
+        for name in self.CLASSES:
+            cls = getattr(pywbem, name)
+            fn = cls.__dict__.get('__eq__')
+            if fn is None:
+                continue
+            self.codes[fn.__code__] = name
+        mon.register_callback(self.TOOL, mon.events.PY_RETURN, self._ret)
+        for code in self.codes:
+            mon.set_local_events(self.TOOL, code, mon.events.PY_RETURN)
+        return self
+
+    def _note(self, law, cls, a, b):
+        if len(self.bad) < 8:
+            ra, rb = repr(a), repr(b)
+            if 'nan' in ra.lower() and ('nan,' in ra.lower() or
+                                        'nan)' in ra.lower()):
+                return      # the property speaks of NaN-free objects
+            self.bad.append({'law': law, 'class': cls, 'a': ra[:600],
+                             'b': rb[:600]})
+
+    def _ret(self, code, offset, retval):
+        cls = self.codes.get(code)
+        if cls is None or self.busy or not isinstance(retval, bool):
+            return
+        try:
+            frame = sys._getframe(1)
+            a = frame.f_locals.get('self')
+            b = frame.f_locals.get('other')
+        except ValueError:
+            return
+        if a is None or b is None or type(a) is not type(b) or a is b:
+            return
+        self.busy = True
+        try:
+            self.pairs += 1
+            self.per_class[cls] = self.per_class.get(cls, 0) + 1
+            back = (b == a)
+            if back is not retval:
+                self._note('symmetry', cls, a, b)
+            ne = (a != b)
+            if ne is not (not retval):
+                self._note('ne-is-negation', cls, a, b)
+            if retval:
+                self.equal_pairs += 1
+                if hash(a) != hash(b):
+                    self._note('eq-implies-hash', cls, a, b)
+        except Exception:  # pylint: disable=broad-except
+            # objects the tests put into an illegal state (unhashable
+            # members, wrong attribute types) are outside the property
+            self.skipped += 1
+        finally:
+            self.busy = False
+
+    def report(self):
+        return {'pairs': self.pairs, 'equal_pairs': self.equal_pairs,
+                'skipped': self.skipped, 'per_class': self.per_class,
+                'violations': self.bad}
+
+
+class Harvester:
+    """Collects the CIM objects that the repository's tests construct:
+    PY_RETURN of the constructors (only constructions that succeed return),
+    the finished object pickled at that moment so that later changes by the
+    test do not reach the harvest.  De-duplicated by pickle bytes, capped per
+    class.  The harvest is input for the oracles of several checks."""
+
+    TOOL = 1
+    CLASSES = EqHashMonitor.CLASSES
+    CAP = int(os.environ.get('VERIF_HARVEST_CAP', '4000'))
+
+    def __init__(self):
+        self.codes = {}
+        self.seen = set()
+        self.items = []
+        self.per_class = {}
+        self.constructed = 0
+        self.unpicklable = 0
+        self.busy = False
+
+    def start(self):
+        import pywbem
+        mon = sys.monitoring
+        try:
+            mon.use_tool_id(self.TOOL, 'vf-harvest')
+        except ValueError:
+            pass
+        for name in self.CLASSES:
+            cls = getattr(pywbem, name)
+            fn = cls.__dict__.get('__init__')
+            if fn is None:
+                continue
+            self.codes[fn.__code__] = name
+        mon.register_callback(self.TOOL, mon.events.PY_RETURN, self._ret)
+        for code in self.codes:
+            mon.set_local_events(self.TOOL, code, mon.events.PY_RETURN)
+        return self
+
+    def _ret(self, code, offset, retval):
+        cls = self.codes.get(code)
+        if cls is None or self.busy:
+            return
+        self.constructed += 1
+        if self.per_class.get(cls, 0) >= self.CAP:
+            return
+        self.busy = True
+        try:
+            import pickle
+            obj = sys._getframe(1).f_locals.get('self')
+            if obj is None or type(obj).__name__ != cls:
+                return
+            try:
+                data = pickle.dumps(obj, 4)
+            except Exception:  # pylint: disable=broad-except
+                self.unpicklable += 1
+                return
+            if data in self.seen:
+                return
+            self.seen.add(data)
+            self.items.append((cls, data))
+            self.per_class[cls] = self.per_class.get(cls, 0) + 1
+        finally:
+            self.busy = False
+
+    def dump(self, path):
+        import pickle
+        with open(path, 'wb') as f:
+            pickle.dump(self.items, f, 4)
+
+    def report(self):
+        return {'constructed': self.constructed, 'kept': len(self.items),
+                'per_class': self.per_class,
+                'unpicklable': self.unpicklable}
+
+
+def _monitors():
+    return [m for m in os.environ.get('VERIF_MONITORS',
+                                      'cimint,store').split(',') if m]
+
+
 def pytest_configure(config):
+    if 'eqhash' in _monitors():
+        STATE['eqhash'] = EqHashMonitor().start()
+    if 'harvest' in _monitors():
+        STATE['harvest'] = Harvester().start()
     from vf.reach import CIMIntInvariant
     STATE['cimint'] = CIMIntInvariant().start()
     import pywbem_mock._inmemoryrepository as rep
@@ -119,13 +291,20 @@ def pytest_sessionfinish(session, exitstatus):
     report = {
         'mode': STATE['mode'],
         'cimint_checked': inv.checked if inv else 0,
-        'cimint_bad': inv.bad if inv else [],
+        'cimint_bad': [b[0] for b in inv.bad] if inv else [],
         'store_invariant_evaluations': STATE['store_evals'],
         'store_invariant_violations': STATE['store_violations'],
+        'eqhash': STATE['eqhash'].report() if STATE.get('eqhash') else None,
         'pytest_exitstatus': int(exitstatus),
         'tests_collected': getattr(session, 'testscollected', None),
         'tests_failed': getattr(session, 'testsfailed', None),
     }
+    if STATE.get('harvest'):
+        report['harvest'] = STATE['harvest'].report()
+        hp = os.environ.get('VERIF_CONTRACT_REPORT')
+        if hp:
+            STATE['harvest'].dump(hp + '.harvest')
+            report['harvest']['file'] = hp + '.harvest'
     path = os.environ.get('VERIF_CONTRACT_REPORT')
     if path:
         with open(path, 'w', encoding='utf-8') as f:
